@@ -598,6 +598,10 @@ func (w *Worker) formatString(fr *frame, format value, args []value) value {
 		}
 		return sb.String()
 	}
+	// all operands concrete basic values: use the real formatter
+	if native, ok := nativeFmtArgs(args); ok {
+		return fmt.Sprintf(f, native...)
+	}
 	ai := 0
 	for i := 0; i < len(f); i++ {
 		if f[i] != '%' {
@@ -623,4 +627,49 @@ func (w *Worker) formatString(fr *frame, format value, args []value) value {
 		}
 	}
 	return sb.String()
+}
+
+// nativeFmtArgs converts fully concrete basic operands to native Go values.
+func nativeFmtArgs(args []value) ([]any, bool) {
+	out := make([]any, len(args))
+	for i, a := range args {
+		it, ok := a.(iface)
+		if !ok || it.t == nil {
+			return nil, false
+		}
+		b, isBasic := it.t.Underlying().(*types.Basic)
+		if !isBasic {
+			return nil, false
+		}
+		if _, named := it.t.(*types.Named); named {
+			// named basic types may carry String()/Format methods
+			if ms := types.NewMethodSet(it.t); ms.Len() > 0 {
+				return nil, false
+			}
+		}
+		switch v := it.v.(type) {
+		case string:
+			out[i] = v
+		case bool:
+			out[i] = v
+		case float64:
+			out[i] = v
+		case uint64:
+			bw, signed, ok := intInfo(b)
+			if !ok {
+				return nil, false
+			}
+			switch {
+			case signed:
+				out[i] = sext64(v, bw)
+			case bw == 8:
+				out[i] = uint8(v)
+			default:
+				out[i] = v
+			}
+		default:
+			return nil, false
+		}
+	}
+	return out, true
 }
